@@ -50,7 +50,15 @@ def main():
             status[nm] = {"ok": True, "changed": changed}
         except Exception as err:  # noqa: BLE001
             msg = f"{type(err).__name__}: {err}"
-            write_if_changed(path, "-- EXTRACTION FAILED for unit " + nm + ": " + " ".join(str(msg).split()) + "\n")
+            # keep the last good translation in place (other properties' drivers are linked against it); the failure is carried by
+            # the status file, which the runner turns into a broken translate:<unit> obligation.  Only when there is nothing usable
+            # (first run, or a marker left by an older version) is a marker written, which then fails the build as well.
+            try:
+                cur = open(path, encoding="utf-8").read()
+            except OSError:
+                cur = ""
+            if not cur or cur.startswith("-- EXTRACTION FAILED"):
+                write_if_changed(path, "-- EXTRACTION FAILED for unit " + nm + ": " + " ".join(str(msg).split()) + "\n")
             status[nm] = {"ok": False, "error": msg, "trace": traceback.format_exc()[-2000:]}
     js = json.dumps(status, indent=1, sort_keys=True)
     if a.status:
